@@ -171,6 +171,61 @@ def collapse_rule(rep):
     rep.floor("C03.c", total, 60)
 
 
+def escaped_flag_rule(rep, f):
+    from ..engines import guard
+    rep.rule("C03.d", "the came-from-a-reference flag belongs to one character: in every scanning loop that hands a local flag to "
+             "scanEntityRef(.., flag) (attribute values, character data, entity literals of the four scanners and the DTD scanner) "
+             "each read of the flag is preceded, since the last character was fetched (getNextChar*), by `flag = false` or by the "
+             "scanEntityRef call that sets it (CFG must-dataflow: generated by those, killed by fetching the next character) — a "
+             "flag that survives into the next character makes literal `<`, tabs and newlines after a reference count as escaped")
+    fns = {}
+    for x in f.kind("call"):
+        c = x["x"]
+        if c[1].split("::")[-1] == "scanEntityRef" and c[3] and c[3][-1][0] == "l":
+            fns.setdefault((x["_fn"]["q"], x["_fn"]["file"]), set()).add(c[3][-1][1])
+    if len(fns) < 8:
+        raise AnalysisBroken("fewer than 8 functions pass a local flag to scanEntityRef (%d)" % len(fns))
+    tus = sorted({os.path.join(core.REPO, fl) for (_, fl) in fns if fl.endswith(".cpp")})
+    g = core.run_xa(tus, cfg="^(" + "|".join(sorted({re.escape(q) for (q, _) in fns})) + ")$", flat=False)
+    n = 0
+    for (q, fl), flags in sorted(fns.items()):
+        for raw in g.cfgs.get(q, []):
+            cfg = guard.Cfg(raw)
+            for L in sorted(flags):
+                V = ["l", L]
+
+                def gen(el, V=V):
+                    x = el.get("x")
+                    if x and x[0] == "b" and x[1] == "=" and x[2] == V and x[3] in (["i", 0], ["cast", "bool", ["i", 0]]):
+                        return True
+                    for d in el.get("decl", []):
+                        if d[0] == V[1] and d[2] in (["i", 0],):
+                            return True
+                    return any(c[0] == "c" and c[1].split("::")[-1] == "scanEntityRef" and c[3] and c[3][-1] == V for c in guard.el_top_calls(el))
+
+                def kill(el):
+                    return any(c[0] == "c" and c[1].split("::")[-1] in ("getNextChar", "getNextCharIfNot", "peekNextChar")
+                               for c in guard.el_top_calls(el))
+                st = guard.must_state(cfg, gen_el=gen, kill_el=kill)
+                bad = []
+                reads = 0
+                for bid, blk in cfg.blocks.items():
+                    t = blk.get("term")
+                    c = t and t.get("cond")
+                    if c and guard.mentions(c, lambda s_, V=V: s_ == V):
+                        reads += 1
+                        if not st(bid, len(blk["els"])):
+                            bad.append(t.get("l"))
+                if not reads:
+                    continue
+                n += 1
+                rep.ob("C03.d", "%s/%s" % (q, L), not bad, "%d reads of %s, each after a reset or scanEntityRef for the current character" % (reads, L) if not bad else
+                       "%s: the flag %s is tested at line %s although it has not been reset (nor set by scanEntityRef) since the next "
+                       "character was fetched: the value left by an earlier character reference is used" % (q, L, sorted(set(bad))),
+                       "%s:%s" % (fl, sorted(set(bad))[0] if bad else raw.get("line", 0)))
+    rep.floor("C03.d", n, 8)
+
+
 def run(rep):
     f = core.library_facts()
     rep.units.update(os.path.relpath(t, core.REPO) for t in f.tus)
@@ -179,6 +234,7 @@ def run(rep):
     dispatch.run(rep, f, "C03")
     eoe_rule(rep, f)
     collapse_rule(rep)
+    escaped_flag_rule(rep, f)
     rep.undecided += ["every value-level clause: line-end and attribute-value normalisation, entity expansion results, character references, "
                       "DTD defaulting, line numbers — not applicable to static analysis",
                       "that the forwarded arguments are the right ones"]
